@@ -227,6 +227,7 @@ def run_config(cfg, mode):
                              **({"storage_length": cfg["storage"].get("size", 3)} if not skw else skw), **kw)
         digests = []
         retained = []
+        buffer_x = {}
         for t in range(1, cfg["T"] + 1):
             x, y = row(cfg, t)
             if stub is not None:
@@ -252,7 +253,15 @@ def run_config(cfg, mode):
                 vals = e.explain_one(x, y, verbose=False)
             else:
                 # runs of consecutive update_storage=False calls (the storage length does not change in between)
-                vals = e.explain_one(x, y, update_storage=(t % 7 not in (3, 4, 5)) or t < 10)
+                us = (t % 7 not in (3, 4, 5)) or t < 10
+                if mode == "A" and not us:
+                    # object identities, made certain instead of left to the allocator: in A the caller refills ONE
+                    # buffer dict in place for the observations it does not hand to the storage (same id(), other
+                    # content); in B every observation is a distinct, retained object
+                    buffer_x.clear()
+                    buffer_x.update(x)
+                    x = buffer_x
+                vals = e.explain_one(x, y, update_storage=us)
             h = hashlib.blake2b(digest_size=12)
             if not cfg.get("default_storage"):
                 h.update(repr(canon_storage(storage)).encode())
